@@ -65,6 +65,7 @@ Definition view_of (o : op) (st' : state) (evs : list event) : oview :=
   | OExec sid _ _ _, [EvStart _ _ _ None] => VStarted true
   | OExec sid _ _ _, [EvRefuse _ _ _] => VExec false 0 (remaining_of st' sid)
   | OPF _ _, [EvStart _ _ _ _] => VStarted true
+  | OPF _ _, [EvRefuse _ _ _] => VStarted false
   | OIntent _ _ _ _, [EvAdded _ _ _; EvStart _ _ _ _] => VStarted true
   | OIntent _ _ _ _, [EvRefuse _ _ _] => VStarted false
   | _, [EvTube _ h] => VHandler (handler_code h)
